@@ -46,6 +46,7 @@ def gen_case(rng, idx):
             sp = list(reversed(sp))
         call = {"entry": "mtl", "losses": losses, "features": feats, "tasks": tp, "shared": sp,
                 "agg": ajcheck.rand_agg(rng, t), "k": k, "retain": nested,
+                "param_kind": rng.choice(["list", "list", "gen", "iter", "tuple", "dictkeys"]),
                 "single_feature": len(feats) == 1 and rng.random() < 0.5}
         calls.append(ajcheck.prepare_call(prog, call))
     return {"id": idx, "prog": prog.to_json(), "calls": calls, "old": ajcheck.rand_old(rng, prog, leaves),
